@@ -1,6 +1,6 @@
 //! C11 — Schmidt number
 use crate::common::*;
-use crate::fam::hom::{cxs, gen_setup};
+use crate::fam::hom::{cxs, gen_setup, integrator_zoo};
 use spdcalc::math::schmidt_number;
 use spdcalc::prelude::*;
 
@@ -85,10 +85,13 @@ pub fn run(ctx: &mut Ctx) {
 
   // ---- setup-level wrapper: square ranges, rectangular ranges with a square number of points
   // (4×9, 2×8, 3×12, 1×4, 9×4 …) and with a non-square number of points (6×11, 2×3 … ⇒ Err)
-  let ns = if ctx.thorough { 40 } else { 12 };
+  let ns = if ctx.thorough { 96 } else { 24 };
   let sides: &[usize] = if ctx.thorough { &[1, 2, 3, 5, 8, 16, 24] } else { &[1, 2, 4, 6, 8] };
   let rect: &[(usize, usize)] = &[(4, 9), (9, 4), (2, 8), (8, 2), (3, 12), (1, 4), (4, 1), (1, 9), (2, 18), (4, 16), (5, 20)];
   let bad: &[(usize, usize)] = &[(6, 11), (2, 3), (3, 2), (1, 2), (5, 7), (4, 8), (7, 6), (1, 3)];
+  // GaussKonrod is not exercised: quad-rs gives up on these smooth integrands (MaxIterExceeded ⇒ `unwrap` panic,
+  // finding D40 of C12) after ≈ 2 s per integral, i.e. minutes per spectrum object (measured: 109 s for one point)
+  ctx.count("setup/integrator/GaussKonrod-skipped(D40)");
   for c in 0..ns {
     let st = gen_setup(&mut ctx.rng, None);
     let (nx, ny, shape) = match c % 3 {
@@ -105,7 +108,11 @@ pub fn run(ctx: &mut Ctx) {
         (a, b, "rect-nonsquare-length")
       }
     };
-    let integ = Integrator::default();
+    // every integrator variant of the API in turn (the spectrum object carries its integrator)
+    let zoo = integrator_zoo(&mut ctx.rng, false);
+    // odd cases: the adaptive rules (last two of the zoo), even cases: the fixed-step ones
+    let (iname, integ) = if c % 2 == 1 { zoo[6 + (c / 2) % 2].clone() } else { zoo[(c / 2) % 6].clone() };
+    ctx.count(&format!("setup/integrator/{}", iname.split('{').next().unwrap_or("?")));
     let sp = st.spdc.joint_spectrum(integ);
     let o = st.spdc.optimum_range(nx.max(2));
     let os = o.steps();
@@ -125,7 +132,7 @@ pub fn run(ctx: &mut Ctx) {
       "C11.wrapper",
       ok,
       &format!("schmidt/setup-eq-array/{}", shape),
-      &format!("setup={} nx={} ny={} samples={} wrapper={} on_samples={}", st.name, nx, ny, amps.len(), out_txt(&r), out_txt(&direct)),
+      &format!("setup={} integrator={} nx={} ny={} samples={} wrapper={} on_samples={}", st.name, iname, nx, ny, amps.len(), out_txt(&r), out_txt(&direct)),
     );
     let d = ((nx * ny) as f64).sqrt().round() as usize;
     if d * d != nx * ny {
